@@ -127,6 +127,7 @@ if payload['mode'] == 'enum':
                 cid = code_id(v)
                 exposes.append({'cls': cname(k), 'old': name, 'line': cid['line'] if cid else None,
                                 'def_mod': cid['mod'] if cid else None})
+    out['abstract'] = [cname(k) for k in top_classes() if getattr(k, '__abstractmethods__', None)]
     out.update({'aliases': aliases, 'kws': kws, 'mros': mros, 'exposes': exposes,
                 'n_modules': len(mods)})
 
@@ -153,6 +154,10 @@ elif payload['mode'] == 'reach':
         try:
             if case['cls']:
                 k = classes[case['cls']]
+                if getattr(k, '__abstractmethods__', None):
+                    # abstract class: a bare instance of a direct subclass that only lifts the ban
+                    k = type(k.__name__, (k,), {})
+                    k.__abstractmethods__ = frozenset()
                 obj = object.__new__(k)
                 f = getattr(obj, case['old'])
             else:
